@@ -1097,3 +1097,8 @@ mod tests {
         assert_ron_snapshot!(output);
     }
 }
+
+// verification hook (guard: cfg(kani), set only by the Kani compiler): harnesses live in /verif/kani
+#[cfg(kani)]
+#[path = "/verif/kani/packer.rs"]
+mod verif_kani;
